@@ -246,6 +246,18 @@ Definition make_enum (cfg : config) (name : str) (variants : list (str * option 
   Ok (doc_attr doc ++ derive_attr "Debug, Serialize, Deserialize, Clone" false cfg ++
       t "pub enum" ++ nm ++ t "{" ++ sep_by (t ",") vs ++ t "}").
 
+(* mir_rust/src/enum.rs make_enum_display: to_string() of a variant is its wire value *)
+Definition enum_display (name : str) (variants : list (str * option str)) : result src :=
+  do names <- safe_variant_names name variants;
+  do arms <- mapM (fun nv =>
+               let '(n, value) := nv in
+               do idc <- struct_ident n;
+               Ok (t "Self ::" ++ idc ++ t "=>" ++ sl value)) names;
+  do nm <- struct_ident name;
+  Ok (t "impl std::fmt::Display for" ++ nm ++
+      t "{ fn fmt(&self, f: &mut std::fmt::Formatter<'_>) -> Result<(), std::fmt::Error> { let value: &str = match *self {" ++
+      sep_by (t ",") arms ++ t "}; write!(f," ++ sl (lit "{}") ++ t ", value) } }").
+
 Definition make_item (fuel : nat) (h : hirspec) (cfg : config) (r : record) : result src :=
   match r with
   | RStruct n _ fs d => make_class fuel h cfg n fs d
@@ -268,7 +280,8 @@ Definition model_file (fuel : nat) (h : hirspec) (cfg : config) (r : record) : r
                      | l => do ids <- mapM ident l; Ok (t "use super::{" ++ sep_by (t ",") ids ++ t "};")
                      end;
   do item <- make_item fuel h cfg r;
-  Ok (serde_import ++ super_import ++ item).
+  do display <- match r with REnum n vs _ => enum_display n vs | _ => Ok [] end;
+  Ok (serde_import ++ super_import ++ item ++ display).
 
 (* make_model_rs *)
 Definition model_mod_file (h : hirspec) : result src :=
@@ -315,7 +328,7 @@ Definition required_struct (o : hop) : result src :=
   if crowded_args o then
     do nm <- struct_ident (required_struct_name (o_name o));
     do fields <- mapM (fun p => do c <- struct_field true p; Ok (c ++ t ",")) (required_params o);
-    let lts := if existsb (fun p => is_reference_type (p_ty p)) (o_params o) then t "< 'a >" else [] in
+    let lts := if existsb (fun p => negb (p_optional p) && is_reference_type (p_ty p)) (o_params o) then t "< 'a >" else [] in
     Ok (t "pub struct" ++ nm ++ lts ++ t "{" ++ concat fields ++ t "}")
   else Ok [].
 
@@ -457,6 +470,15 @@ Definition client_method (o : hop) : result src :=
 
 Definition has_security (h : hirspec) : bool := match h_security h with [] => false | _ => true end.
 
+(* request.rs: qualified_result_type — generated models are qualified with crate::model wherever they occur *)
+Fixpoint qualified_result_type (x : ty) : result src :=
+  match x with
+  | TModel _ => do c <- ty_code x; Ok (t "crate::model::" ++ c)
+  | TArray i => do c <- qualified_result_type i; Ok (t "Vec <" ++ c ++ t ">")
+  | THashMap i => do c <- qualified_result_type i; Ok (t "std::collections::HashMap < String ," ++ c ++ t ">")
+  | _ => ty_code x
+  end.
+
 (* the IntoFuture impl: the one place where the HTTP request is built and sent *)
 Definition into_future_impl (auth : bool) (sname output url method assigns : src) : src :=
   t "impl<'a> ::std::future::IntoFuture for FluentRequest<'a," ++ sname ++ t "> {" ++
@@ -480,12 +502,11 @@ Definition request_file (h : hirspec) (cfg : config) (o : hop) : result src :=
   do rstruct <- request_struct cfg o;
   do reqd <- required_struct o;
   do sname <- struct_ident (request_struct_name (o_name o));
-  do response <- ty_code (o_ret o);
   do method <- ident (o_method o);
   do url <- make_url o;
   do builders <- mapM builder_method (optional_params o);
   do assigns <- assign_inputs (o_params o);
-  let output := if ty_is_primitive (o_ret o) then response else t "crate::model::" ++ response in
+  do output <- qualified_result_type (o_ret o);
   do cm <- client_method o;
   do cid <- ident client;
   do model_import <- match imports2 with
@@ -587,7 +608,7 @@ Definition auth_enum (h : hirspec) (cfg : config) : result src :=
                  do v <- struct_ident name;
                  do fs <- mapM (fun fl => do f <- field_ident (fst fl); Ok (f ++ t ": String")) fields;
                  Ok (v ++ t "{" ++ sep_by (t ",") fs ++ t "}")
-             | AuthOAuth2 _ _ _ _ => Ok (t "OAuth2 { middleware: Arc<httpclient_oauth2::OAuth2> }")
+             | AuthOAuth2 _ _ _ _ => Ok (t "OAuth2 { middleware: std::sync::Arc<httpclient_oauth2::OAuth2> }")
              | AuthNone => Ok (t "NoAuth")
              end) (h_security h);
   Ok (t "pub enum" ++ aid ++ t "{" ++ sep_by (t ",") vs ++ t "}").
@@ -623,7 +644,7 @@ Definition impl_auth (h : hirspec) (cfg : config) : result src :=
   do fe <- auth_from_env h cfg;
   Ok (t "impl" ++ aid ++ t "{" ++ fe ++
       (if x_oauth2 (calculate_extras h)
-       then t "pub fn oauth2(access: String, refresh: String) -> Self { let mw = shared_oauth2_flow().bearer_middleware(access, refresh); Self::OAuth2 { middleware: Arc::new(mw) } }"
+       then t "pub fn oauth2(access: String, refresh: String) -> Self { let mw = shared_oauth2_flow().bearer_middleware(access, refresh); Self::OAuth2 { middleware: std::sync::Arc::new(mw) } }"
        else []) ++ t "}").
 
 Definition doc_line (s : string) : src := t "#[doc =" ++ sl (lit s) ++ t "]".
@@ -704,10 +725,11 @@ Fixpoint example_value (fuel : nat) (h : hirspec) (x : ty) (name : str) (use_ref
             | RStruct _ _ fields _ =>
                 do fs <- mapM (fun kf =>
                            let '(fname, fl) := kf in
-                           let not_ref := negb force_ref || f_optional fl in
+                           let optional := f_optional fl || forced_option (f_ty fl) in
+                           let not_ref := negb force_ref || optional in
                            do v <- example_value f h (f_ty fl) fname (negb not_ref);
                            do id <- field_ident fname;
-                           Ok (id ++ t ":" ++ (if f_optional fl then t "Some(" ++ v ++ t ")" else v))) fields;
+                           Ok (id ++ t ":" ++ (if optional then t "Some(" ++ v ++ t ")" else v))) fields;
                 do mid <- struct_ident m;
                 Ok (mid ++ t "{" ++ sep_by (t ",") fs ++ t "}")
             | RNewType nname fields _ =>
